@@ -63,6 +63,7 @@ pub struct Report {
     pub classes: std::collections::BTreeMap<String, u64>,
     pub samples: Vec<serde_json::Value>,
     pub distinct: std::collections::HashSet<u64>,
+    pub per_fp: std::collections::BTreeMap<String, u64>,
 }
 
 impl Report {
@@ -85,7 +86,9 @@ impl Report {
     }
     pub fn mismatch(&mut self, fp: &str, detail: serde_json::Value) {
         self.mismatches += 1;
-        if self.mismatches <= 200 {
+        let n = self.per_fp.entry(fp.to_string()).or_insert(0);
+        *n += 1;
+        if *n <= 25 {
             let mut o = serde_json::Map::new();
             o.insert("fp".into(), fp.into());
             o.insert("detail".into(), detail);
@@ -101,7 +104,7 @@ impl Report {
     pub fn finish(&self) {
         let o = serde_json::json!({
             "evaluations": self.evaluations, "mismatches": self.mismatches, "drift": self.drift,
-            "classes": self.classes, "samples": self.samples, "distinct_nontrivial": self.distinct.len(),
+            "classes": self.classes, "mismatch_classes": self.per_fp, "samples": self.samples, "distinct_nontrivial": self.distinct.len(),
         });
         println!("SUMMARY {}", o);
     }
@@ -112,4 +115,35 @@ pub fn seed() -> u64 {
 }
 pub fn thorough() -> bool {
     std::env::var("VERIF_TIER").map(|t| t == "thorough").unwrap_or(false)
+}
+
+// ---- panic capture: a panic in code under test is data, not a tool failure ----
+thread_local! {
+    static LAST_PANIC: std::cell::RefCell<String> = std::cell::RefCell::new(String::new());
+}
+/// Install a hook that records "<file>:<message>" of the last panic on this thread (no line numbers, so
+/// the fingerprint survives unrelated edits).
+pub fn install_panic_capture() {
+    std::panic::set_hook(Box::new(|info| {
+        let file = info.location().map(|l| l.file().rsplit('/').next().unwrap_or("").to_string()).unwrap_or_default();
+        let msg = if let Some(s) = info.payload().downcast_ref::<&str>() {
+            s.to_string()
+        } else if let Some(s) = info.payload().downcast_ref::<String>() {
+            s.clone()
+        } else {
+            "?".to_string()
+        };
+        let short: String = msg.chars().take(80).collect();
+        LAST_PANIC.with(|p| *p.borrow_mut() = format!("{}:{}", file, short));
+    }));
+}
+pub fn last_panic() -> String {
+    LAST_PANIC.with(|p| p.borrow().clone())
+}
+/// Run `f`, turning a panic into Err("<file>:<message>").
+pub fn guarded<T>(f: impl FnOnce() -> T) -> Result<T, String> {
+    match std::panic::catch_unwind(std::panic::AssertUnwindSafe(f)) {
+        Ok(v) => Ok(v),
+        Err(_) => Err(last_panic()),
+    }
 }
